@@ -3,7 +3,7 @@
 # confirms a seeded change in the scratch worktree /tmp/seed_rebase (a worktree of /repo at HEAD):
 #   stock suite (lib + doc) passes with the change; the demo fails with it and passes without.
 N=$1; PATCH=$2; DEMO=$3; shift 3; FEAT="$@"
-W=/tmp/seed_rebase; OUT=/verif/seeded/$N
+W=${SEED_W:-/tmp/seed_rebase}; OUT=/verif/seeded/$N
 cd $W || exit 9
 git checkout -q -- src; rm -f tests/*.rs; mkdir -p tests $OUT
 git apply --check $PATCH || { echo "$N PATCH DOES NOT APPLY"; exit 8; }
